@@ -548,6 +548,112 @@ Proof.
   intros Hd. rewrite !dup_errors_app. f_equal. cbn. rewrite Hd. reflexivity.
 Qed.
 
+(* ---------------- property-level statements over histories ---------------- *)
+Theorem inv_explicit ops b : run F ops = Done b ->
+  NoDup (map fst (entries F b)) /\
+  forall id e, afind (entries F b) id = Some e ->
+    match e with
+    | EMessage ri ei => exists res v a c,
+        nth_error (resources F b) ri = Some res /\ nth_error res ei = Some (Message id v a c)
+    | ETerm ri ei => exists res v a c,
+        nth_error (resources F b) ri = Some res /\ nth_error res ei = Some (Term id v a c)
+    | EFunction _ => True
+    end.
+Proof. intros H. exact (run_inv ops b H). Qed.
+
+Theorem lookups_run ops b id : run F ops = Done b ->
+  get_message F b id = match afind (spec F ops) id with Some (DMessage m) => Some m | _ => None end /\
+  get_entry_term F b id = match afind (spec F ops) id with Some (DTerm t) => Some t | _ => None end /\
+  get_entry_function F b id = match afind (spec F ops) id with Some (DFunction f) => Some f | _ => None end /\
+  has_message F b id = match afind (spec F ops) id with Some (DMessage _) => true | _ => false end.
+Proof.
+  intros H. pose proof (lookup_run ops b id H) as Hl.
+  unfold has_message, get_message.
+  rewrite get_entry_message_lookup, get_entry_term_lookup, get_entry_function_lookup, Hl.
+  repeat split. destruct (afind (spec F ops) id) as [[]|]; reflexivity.
+Qed.
+
+Theorem first_wins ops b r : run F ops = Done b ->
+  exists b',
+    add_resource F b r = Done (b', result_of (dup_errors F (map fst (entries F b)) r)) /\
+    run F (ops ++ [AddResource r]) = Done b' /\
+    map fst (entries F b) = map fst (spec F ops) /\
+    forall id, afind (spec F (ops ++ [AddResource r])) id =
+      match afind (spec F ops) id with Some d => Some d | None => afind (defs_of F r) id end.
+Proof.
+  intros H. pose proof (run_refines ops b H) as Habs.
+  destruct (add_resource_refines b (spec F ops) r Habs) as (b' & Hadd & _ & _).
+  exists b'. split; [exact Hadd|]. split; [|split].
+  - unfold run in *. rewrite (run_from_app ops [AddResource r] _ _ H). cbn. rewrite Hadd. reflexivity.
+  - apply (abs_lift_keys _ _ _ Habs).
+  - intros id. rewrite spec_app. cbn. apply fold_sinsert_new_find.
+Qed.
+
+Theorem last_wins ops b r : run F ops = Done b ->
+  run F (ops ++ [AddResourceOverriding r]) = Done (add_resource_overriding F b r) /\
+  forall id, afind (spec F (ops ++ [AddResourceOverriding r])) id =
+    match afind (rev (defs_of F r)) id with Some d => Some d | None => afind (spec F ops) id end.
+Proof.
+  intros H. split.
+  - unfold run in *. rewrite (run_from_app ops [AddResourceOverriding r] _ _ H). reflexivity.
+  - intros id. rewrite spec_app. cbn. apply fold_sinsert_find.
+Qed.
+
+Theorem function_vacant_only ops b id f : run F ops = Done b ->
+  run F (ops ++ [AddFunction id f]) = Done (fst (add_function F b id f)) /\
+  snd (add_function F b id f) =
+    (match afind (spec F ops) id with None => Ok tt | Some _ => Err (Overriding KFunction id) end) /\
+  (afind (spec F ops) id <> None -> fst (add_function F b id f) = b) /\
+  forall id2, afind (spec F (ops ++ [AddFunction id f])) id2 =
+    match afind (spec F ops) id2 with
+    | Some d => Some d
+    | None => if bytes_eqb id id2 then Some (DFunction f) else None
+    end.
+Proof.
+  intros H. pose proof (run_refines ops b H) as Habs.
+  destruct (add_function_refines b (spec F ops) id f Habs) as (_ & H2 & H3).
+  split; [|split; [exact H2 | split; [exact H3|]]].
+  - unfold run in *. rewrite (run_from_app ops [AddFunction id f] _ _ H). cbn.
+    destruct (add_function F b id f). reflexivity.
+  - intros id2. rewrite spec_app. cbn [spec_step].
+    change (sinsert_new F (spec F ops) (id, DFunction f)) with (fold_left (sinsert_new F) [(id, DFunction f)] (spec F ops)).
+    rewrite fold_sinsert_new_find. reflexivity.
+Qed.
+
+Theorem kind_safe ops b id m : run F ops = Done b ->
+  get_message F b id = Some m ->
+  afind (spec F ops) id = Some (DMessage m) /\ msg_id m = id /\
+  exists res ei, In res (resources F b) /\
+    nth_error res ei = Some (Message id (msg_value m) (msg_attributes m) (msg_comment m)).
+Proof.
+  intros H Hm. destruct (lookups_run ops b id H) as (H1 & _). rewrite H1 in Hm.
+  destruct (afind (spec F ops) id) as [[m'|t|f]|] eqn:Es; try discriminate. injection Hm as ->.
+  split; [reflexivity|]. destruct (spec_ok ops) as [_ Hk]. pose proof (Hk id _ Es) as Hid. cbn in Hid.
+  split; [exact Hid|].
+  destruct (run_inv ops b H) as [_ Hinv].
+  pose proof (run_refines ops b H) as Habs.
+  destruct (abs_lift_find _ _ _ id Habs) as [Hnone Hsome].
+  destruct (afind (entries F b) id) as [e|] eqn:Ee.
+  - destruct (Hsome e eq_refl) as (d & Hd1 & Hd2). rewrite Es in Hd1. injection Hd1 as <-.
+    specialize (Hinv id e Ee).
+    destruct e as [ri ei|ri ei|f]; cbn in Hd2, Hinv.
+    + destruct Hinv as (res & v & a & c & Hr & He). rewrite Hr, He in Hd2. injection Hd2 as <-.
+      exists res, ei. split; [eapply nth_error_In, Hr | exact He].
+    + destruct (nth_error (resources F b) ri) as [res|]; [|discriminate].
+      destruct (nth_error res ei) as [[]|]; discriminate.
+    + discriminate.
+  - rewrite (proj1 Hnone eq_refl) in Es. discriminate.
+Qed.
+
+Theorem not_message ops b id : run F ops = Done b ->
+  (forall t, afind (spec F ops) id = Some (DTerm t) -> get_message F b id = None /\ has_message F b id = false) /\
+  (forall f, afind (spec F ops) id = Some (DFunction f) -> get_message F b id = None /\ has_message F b id = false) /\
+  (afind (spec F ops) id = None -> get_message F b id = None /\ has_message F b id = false).
+Proof.
+  intros H. destruct (lookups_run ops b id H) as (H1 & _ & _ & H4). rewrite H1, H4.
+  repeat split; intros; try match goal with Hx : afind _ _ = _ |- _ => rewrite Hx end; reflexivity.
+Qed.
+
 End RegistryProofs.
 
 (* ---------------- message view ---------------- *)
